@@ -82,7 +82,10 @@ struct Obj {
   char *p = nullptr;
   bool deskey = false;
   unsigned char key[8];
+  int held = -1;  // request whose phrase and setting currently sit in the object's own input/setting fields
 };
+// the application-owned fields of struct crypt_data (released layout, asserted by C20)
+static const size_t OFF_SETTING = 384, LEN_SETTING = 384, OFF_INPUT = 768, LEN_INPUT = 512;
 
 static void to_vec(const unsigned char b[8], char v[64]) {
   for (int i = 0; i < 64; i++) v[i] = (char)((b[i / 8] >> (7 - i % 8)) & 1);
@@ -138,7 +141,7 @@ static Verdict c07_check(const KV &c, Ctx &ctx) {
   const Bytes &ops = c.get("ops");
   Verdict v;
   std::map<int, std::set<int>> preds;  // request -> set of predecessor op kinds
-  int prev_kind = -1, nchecked = 0;
+  int prev_kind = -1, nchecked = 0, in_object = 0;
   std::string trace;
   auto expect_hash = [&](int op, int ri, const char *r, bool token_ok) -> Verdict {
     const Bytes &m = M[(size_t)ri];
@@ -161,8 +164,25 @@ static Verdict c07_check(const KV &c, Ctx &ctx) {
     ctx.st.executed++;
     switch (op) {
       case 0: v = expect_hash(op, ri, L.crypt(P[(size_t)ri].c_str(), S[(size_t)ri].c_str()), true); break;
-      case 1: v = expect_hash(op, ri, L.crypt_r(P[(size_t)ri].c_str(), S[(size_t)ri].c_str(), ob.p), true); ob.deskey = false; break;
-      case 2: v = expect_hash(op, ri, L.crypt_rn(P[(size_t)ri].c_str(), S[(size_t)ri].c_str(), ob.p, (int)DS), false); ob.deskey = false; break;
+      case 1: case 2: {
+        const char *pp = P[(size_t)ri].c_str(), *ss = S[(size_t)ri].c_str();
+        // <crypt.h> offers the object's own input and setting fields as storage for the arguments: a caller that
+        // keeps them there puts them in once and then hashes repeatedly, so they are copied only when the object
+        // holds another request (a library that touches those fields shows up at the second call)
+        if ((arg & 1) && P[(size_t)ri].size() < LEN_INPUT && S[(size_t)ri].size() < LEN_SETTING) {
+          if (ob.held != ri) {
+            memcpy(ob.p + OFF_INPUT, pp, P[(size_t)ri].size() + 1);
+            memcpy(ob.p + OFF_SETTING, ss, S[(size_t)ri].size() + 1);
+            ob.held = ri;
+          }
+          pp = ob.p + OFF_INPUT;
+          ss = ob.p + OFF_SETTING;
+          in_object++;
+        }
+        v = expect_hash(op, ri, op == 1 ? L.crypt_r(pp, ss, ob.p) : L.crypt_rn(pp, ss, ob.p, (int)DS), op == 1);
+        ob.deskey = false;
+        break;
+      }
       case 3: v = expect_hash(op, ri, L.crypt_ra(P[(size_t)ri].c_str(), S[(size_t)ri].c_str(), &ra, &ras), false); break;
       case 4: {
         // crypt_gensalt's static result handed straight to crypt
@@ -246,6 +266,7 @@ static Verdict c07_check(const KV &c, Ctx &ctx) {
     ctx.st.cls("c07/nontrivial");
   } else
     ctx.st.cls("c07/other");
+  if (in_object >= 2) ctx.st.cls("c07/arguments-in-object-fields");
   for (int i = 0; i < nreq; i++) ctx.st.cls(std::string("c07-method/") + METHOD_NAME[classify_tag(S[(size_t)i])] + (M[(size_t)i][0] == '!' ? "/failing" : "/ok"));
   return "";
 }
